@@ -458,6 +458,19 @@ fn gen_stream(gen: usize, rng: &mut Rng, enc: &mut Encoder, stream_hint: u32) ->
             }
             out
         }
+        7 => {
+            // one message cut into more than 65,536 chunks after an in-band SetChunkSize(1|2)
+            let cs = *rng.pick(&[1u32, 1, 2]);
+            let mut out = enc.encode_simple(&crate::refs::chunk::set_chunk_size_msg(cs, 0), 2);
+            enc.chunk_size = cs as usize;
+            let len = cs as usize * 65_536 + *rng.pick(&[0usize, 1, 1, 5000]);
+            let t = *rng.pick(&[8u8, 9, 22]);
+            let m = Msg { type_id: t, msid: if t == 22 { 0 } else { stream_hint }, ts: 5, data: (0..len).map(|i| (i >> 2) as u8 ^ i as u8).collect() };
+            out.extend(enc.encode_simple(&m, sessprep::usual_csid(t)));
+            let ping = Msg { type_id: 4, msid: 0, ts: 6, data: vec![0, 6, 0, 0, 0, 9] };
+            out.extend(enc.encode_simple(&ping, 2));
+            out
+        }
         4 | _ => {
             let cfg = ForeignCfg { max_msgs: 10, max_len: 2000, max_chunks: 200, scs_pct: 10, nonminimal_ok: true, many_one_in: 0 };
             let f = foreign::gen_foreign(rng, &cfg);
